@@ -317,6 +317,15 @@ class C16:
             if po:
                 res["violation"] = {"class": po[0], "msg": "[second interpreter] %s" % po[1]}
                 return res
+            mon7 = (h.get("gc") or {}).get("monitor") or {}
+            if mon7.get("n_bound", 0) > 0:
+                res["violation"] = {"class": "heap-bound", "msg": "[second interpreter] I1 violated at %d allocation(s): %s" % (
+                    mon7["n_bound"], "; ".join(mon7.get("bound_violations", [])[:2]))}
+                return res
+            if mon7.get("n_drift", 0) > 0:
+                res["violation"] = {"class": "accounting-drift", "msg": "[second interpreter] I2 violated %d time(s): %s" % (
+                    mon7["n_drift"], "; ".join(mon7.get("drift_violations", [])[:2]))}
+                return res
             st2 = None
             for e_ in h["programs"][-1]["events"]:
                 if isinstance(e_, list) and e_ and isinstance(e_[0], dict) and "stats" in e_[0]:
@@ -340,6 +349,15 @@ class C16:
             po = process_outcome(h)
             if po:
                 res["violation"] = {"class": po[0], "msg": "[reset rounds] %s" % po[1]}
+                return res
+            mon8 = (h.get("gc") or {}).get("monitor") or {}
+            if mon8.get("n_bound", 0) > 0:
+                res["violation"] = {"class": "heap-bound", "msg": "[reset rounds] I1 violated at %d allocation(s): %s" % (
+                    mon8["n_bound"], "; ".join(mon8.get("bound_violations", [])[:2]))}
+                return res
+            if mon8.get("n_drift", 0) > 0:
+                res["violation"] = {"class": "accounting-drift", "msg": "[reset rounds] I2 violated %d time(s): %s" % (
+                    mon8["n_drift"], "; ".join(mon8.get("drift_violations", [])[:2]))}
                 return res
             per_round = []
             for pi in (2, 4):
